@@ -115,6 +115,18 @@ def orientation_order(rep, prog, rule="C12.volume-integrand"):
                 if var is None and c.get("k") == "BinaryOperator" and c.get("op") in ("<", ">") and strip(c["c"][0]).get("k") == "DeclRefExpr":
                     var = strip(c["c"][0])["ref"]
     if var is None:
+        # the flips are decided by a sign test of something that is not a sum over the faces: not the orientation of the surface
+        for f in flips:
+            for cond, pol in fi.guards(f):
+                c = strip(cond)
+                while c.get("k") == "UnaryOperator" and c.get("op") == "!":
+                    c = strip(c["c"][0])
+                if c.get("k") == "BinaryOperator" and c.get("op") in ("<", ">", "<=", ">=") and any(strip(x).get("k") in ("FloatingLiteral", "IntegerLiteral") and float(strip(x).get("v", "1")) == 0.0 for x in c["c"]):
+                    other = [x for x in c["c"] if not (strip(x).get("k") in ("FloatingLiteral", "IntegerLiteral"))]
+                    if other and not any(x.get("k") == "CXXMemberCallExpr" and x.get("callee") == "face::is_used" for x in walk(c)):
+                        rep.violation(rule, prog, fn, f, "inside-out decision is not the sign of the signed volume",
+                                      "check_face_normal_orientation flips all faces when '%s' holds: that quantity is not the signed volume summed over all (consistently wound) faces. The sign of the enclosed signed volume is the orientation of a closed surface for every genus-0 mesh and every numbering; a test on one face (or on a centre of the nodes) is right for star-shaped cells only and turns every normal inward when the chosen face lies in a concavity" % short(c, 80))
+                        return "violated"
         return None
     accs = [n for n in walk(fn["body"]) if n.get("k") == "CompoundAssignOperator" and n.get("op") in ("+=", "-=") and strip(n["c"][0]).get("k") == "DeclRefExpr" and strip(n["c"][0])["ref"].get("did") == var["did"]]
     winds = [n for n in walk(fn["body"]) if n.get("k") == "CXXMemberCallExpr" and n.get("callee") == "cell::check_face_winding_order"]
@@ -447,6 +459,16 @@ def aabb(rep, prog):
         if "infinity" not in txt or (kind == "min" and neg) or (kind == "max" and not neg):
             inits_ok = False
     if not rets or len(got) != 6 or any(g is None for g in got):
+        # an extremum algorithm over the whole node list cannot skip the free slots (their position is reset to the origin)
+        for a_ in walk(fn["body"]):
+            if a_.get("k") == "CallExpr" and a_.get("callee") in ("std::minmax_element", "std::min_element", "std::max_element"):
+                ar = call_args(a_)
+                rng = render(ar[0]).replace(" ", "") + render(ar[1]).replace(" ", "") if len(ar) >= 2 else ""
+                filt = any(x.get("k") == "CXXMemberCallExpr" and x.get("callee") == "node::is_used" for x in walk(a_))
+                if "node_lst_.begin()" in rng and "node_lst_.end()" in rng and not filt:
+                    rep.violation("C12.aabb", prog, fn, a_, "extremum taken over every node slot, used or not",
+                                  "get_aabb takes %s over node_lst_.begin()..end(): the list also holds free slots, whose position is reset to the origin, and the comparison does not look at is_used(); after an edge merge (or for input meshes with unreferenced points) the origin enters the box whenever it lies outside the cell" % a_["callee"])
+                    return
         raise AnalysisBroken("get_aabb: the six returned values are not all running extrema of a node coordinate recognised by this checker (%s): the layout of the box is not decided" % got)
     if got == want and inits_ok:
         rep.ok("C12.aabb", prog, fn, rets[0], "returns (min_x,min_y,min_z,max_x,max_y,max_z); minima start at +inf, maxima at -inf")
